@@ -132,7 +132,14 @@ class PEval:
             raise Stuck("too deep")
         if self._subject(e):
             return ("subject",)
-        e = peel(e)
+        # look through & / * wrappers, but never through a block that has statements (the lets of an inlined helper's parameters bind values)
+        while True:
+            if e.get("k") == "ref" or (e.get("k") == "unary" and e["op"] == "*" and "ovl" not in e):
+                e = e["e"]
+            elif e.get("k") == "blockexpr" and not e["b"]["stmts"] and "tail" in e["b"] and "inl_id" not in e:
+                e = e["b"]["tail"]
+            else:
+                break
         k = e.get("k")
         if self._subject(e):
             return ("subject",)
@@ -311,6 +318,11 @@ class PEval:
 
     def run(self, f):
         env = {}
+        # a parameter that is the subject stays the subject under every alias (inlined helpers re-bind it under their own parameter name)
+        for p in f.get("params", []):
+            for name, i in pat_bindings(p):
+                if self.is_subject({"k": "local", "name": name, "id": i}):
+                    self.subject_ids.add(canon(i))
         try:
             return self.ev(f["body"], env)
         except _Return as r:
